@@ -89,19 +89,25 @@ theorem membersNonEmpty_of_ok (s : SchemaD) (w : Nat) (t : TypeD) (h : typeOKT s
     simp only [Bool.and_eq_true, Bool.not_eq_true', List.isEmpty_eq_false_iff] at hk <;>
     first | trivial | (simp only [ne_eq, List.map_eq_nil_iff]; first | exact hk.1.1 | exact hk.1)
 
-/-- LAYER (i) of `print_schema_text_parses` -/
-theorem parse_printSchemaT_layer1 (o : SdlPrintT.OptsT) (s : SchemaD) (hs : InPrintOrder s)
-    (hwf : printTextWF o s = true) (hp : NoDescNoDefault s) :
+/-- the description of a definition at depth 0 -/
+abbrev TopDesc (o : SdlPrintT.OptsT) (d : Option String) : Prop :=
+  DescPart (SdlPrintT.printDescription o d 0 true) (Item.yieldAll (descV (descOf (descToDoc d))))
+
+/-- the assembly: `printTextWF` plus the layouts of descriptions, arguments and members give the statement -/
+theorem parse_printSchemaT_core (o : SdlPrintT.OptsT) (s : SchemaD) (hs : InPrintOrder s)
+    (hwf : printTextWF o s = true)
+    (hD : ∀ d ∈ s.directives, TopDesc o d.desc ∧ ArgsPart s o d.args 0)
+    (hT : ∀ t ∈ s.types, TopDesc o t.desc ∧ MembersPart s o t) :
     parseSdlTextT (SdlPrintT.printSchemaT o s) = docToAst (schemaToDoc s) := by
   simp only [printTextWF, Bool.and_eq_true, List.all_eq_true, Bool.or_eq_true, Bool.not_eq_true', List.isEmpty_eq_false_iff] at hwf
-  obtain ⟨⟨⟨⟨⟨⟨⟨_, hind0⟩, htypes⟩, hdirs⟩, hq⟩, hm⟩, hsub⟩, hnonempty⟩ := hwf
+  obtain ⟨⟨⟨⟨⟨⟨⟨⟨⟨_, hind0⟩, htypes⟩, hdirs⟩, hq⟩, hm⟩, hsub⟩, hnonempty⟩, hroots⟩, _⟩ := hwf
   have hind : Blank o.indent := by
     intro c hc; have := hind0 c hc; simpa using this
   have hrootsne : needsSchemaBlock s = true → rootOps s ≠ [] := by
-    intro hn hro
-    unfold needsSchemaBlock at hn
-    unfold rootOps at hro
-    cases hq' : s.query <;> cases hm' : s.mutation <;> cases hs' : s.subscription <;> simp [hq', hm', hs'] at hn hro
+    intro hn
+    rcases hroots with h | h
+    · rw [hn] at h; cases h
+    · exact h
   apply parse_printSchemaT o s hs
   · -- the text is not empty
     unfold schemaPairs
@@ -121,14 +127,13 @@ theorem parse_printSchemaT_layer1 (o : SdlPrintT.OptsT) (s : SchemaD) (hs : InPr
       · cases hpm
     · have hok := hdirs d hd
       simp only [directiveOKT, Bool.and_eq_true, List.all_eq_true] at hok
-      have hpd := hp.2 d hd
-      have := lay_printDirectiveDefinition s o d hok.1.1.1.1 (descPart_noDoc o d.desc 0 true hpd.1)
-        (argsPart_plain s o _ d.args 0 hok.1.1.2 hpd.2) (fun n hn => (hok.2 n hn).1)
+      have hpd := hD d hd
+      have := lay_printDirectiveDefinition s o d hok.1.1.1.1 hpd.1 hpd.2 (fun n hn => (hok.2 n hn).1)
       simpa [defTree, directiveToDef, List.map_map, Function.comp_def] using this
     · have hok := htypes t ht
-      have hpt := hp.1 t ht
+      have hpt := hT t ht
       have hn : nameOK t.name = true := by simp only [typeOKT, Bool.and_eq_true] at hok; exact hok.1.1
-      exact lay_printType s o t hn (descPart_noDoc o t.desc 0 true hpt.1) (membersPart_plain s o hind t hok hpt.2)
+      exact lay_printType s o t hn hpt.1 hpt.2
   · intro d hd fol
     simp only [schemaToDoc, List.map_append, List.map_map, List.mem_append, List.mem_map, Function.comp_apply] at hd
     rcases hd with (hd | ⟨x, _, rfl⟩) | ⟨t, ht, rfl⟩
@@ -164,5 +169,26 @@ theorem parse_printSchemaT_layer1 (o : SdlPrintT.OptsT) (s : SchemaD) (hs : InPr
         · simp at hd
       · exact wfDefinition_directive _ s _ x (hdirs x hx)
       · exact wfDefinition_type _ s _ t (htypes t ht)
+
+theorem blank_of_wf (o : SdlPrintT.OptsT) (s : SchemaD) (hwf : printTextWF o s = true) : Blank o.indent := by
+  simp only [printTextWF, Bool.and_eq_true, List.all_eq_true] at hwf
+  intro c hc; have := hwf.1.1.1.1.1.1.1.1.2 c hc; simpa using this
+
+/-- LAYER (i) of `print_schema_text_parses` -/
+theorem parse_printSchemaT_layer1 (o : SdlPrintT.OptsT) (s : SchemaD) (hs : InPrintOrder s)
+    (hwf : printTextWF o s = true) (hp : NoDescNoDefault s) :
+    parseSdlTextT (SdlPrintT.printSchemaT o s) = docToAst (schemaToDoc s) := by
+  have hind := blank_of_wf o s hwf
+  have hwf0 := hwf
+  simp only [printTextWF, Bool.and_eq_true, List.all_eq_true] at hwf0
+  apply parse_printSchemaT_core o s hs hwf
+  · intro d hd
+    have hok := hwf0.1.1.1.1.1.1.2 d hd
+    simp only [directiveOKT, Bool.and_eq_true, List.all_eq_true] at hok
+    have hpd := hp.2 d hd
+    exact ⟨descPart_noDoc o d.desc 0 true hpd.1, argsPart_plain s o _ d.args 0 hok.1.1.2 hpd.2⟩
+  · intro t ht
+    have hpt := hp.1 t ht
+    exact ⟨descPart_noDoc o t.desc 0 true hpt.1, membersPart_plain s o hind t (hwf0.1.1.1.1.1.1.1.2 t ht) hpt.2⟩
 
 end PyGql.SdlText
